@@ -52,6 +52,9 @@ def same(a, b, path, out, exact_kinds=True):
     if ka in ("int", "float", "complex") and kb in ("int", "float", "complex"):
         if exact_kinds and ka != kb:
             out.append("%s: %r (%s) came back as %r (%s)" % (path, a, ka, b, kb))
+        elif ka == "int" and kb == "int":
+            if int(a) != int(b):
+                out.append("%s: %r came back as %r" % (path, a, b))
         elif complex(a) != complex(b) and not (a != a and b != b):
             out.append("%s: %r came back as %r" % (path, a, b))
         return
